@@ -7,7 +7,8 @@ Decided: the mechanism by which a location reaches the error, clause by clause.
          eval_internal - so that node is the first entry;
   R20.3  leaf nodes get (file, line, column) of a cursor copy taken before the token was consumed; inner nodes get the
          start of their first child and the file name of the parse in progress;
-  R20.4  nodes synthesised by the optimizer inherit the location of the node they replace;
+  R20.4  every node the optimizer builds takes location, text and children from the same node (the pass's own node for folded
+         constants, the original node for compiled loops);
   R20.5  the cursor's line/column arithmetic: ++ over '\\n' starts a new line at column 1, any other byte advances the
          column; -- is its inverse.
 Not decided: the numeric agreement of every reported position with ground truth on generated programs; retreat of the
@@ -193,37 +194,77 @@ def run(chk):
     r3.ob("parse_internal installs the given file name before parsing starts", okf, g.where, g["q"], "assignments to m_filename: %s" % [expr_str(prog, g, x)[:60] for x in asg])
     r3.require(12, "obligations")
 
-    # ------------------------------------------------------------------ R20.4
-    r4 = chk.rule("R20.4", "a node synthesised by the optimizer carries the location of the node it replaces",
-                  "locations survive constant folding and the other rewrites")
-    nsyn = 0
-    seen4 = set()
+    # ------------------------------------------------------------------ R20.4 optimizer-built nodes keep the replaced node's location
+    r6 = chk.rule("R20.4", "every node the optimizer builds carries the location of the node it replaces: the location argument comes from the same node as the text and the children moved into the new node (or from the pass's own node when the new node is a folded constant)",
+                  "failing call and enclosing call sites are reported at the source position of the construct, also for code rewritten by the optimizer (calls in loop bodies, folded expressions, compiled loops)")
+    seen6 = set()
     for f in prog.fns:
-        if not f["q"].startswith("chaiscript::optimizer::") or f["tk"] != "inst":
+        if f["tk"] == "pattern" or not f["q"].startswith("chaiscript::optimizer::"):
             continue
         for n in walk(f["body"]):
-            if n.get("k") == "call" and n.get("name") == "make_unique" and n.get("fn") is not None:
-                callee = prog.fn_by_id(f, n["fn"])
-                m = re.search(r"make_unique<chaiscript::eval::AST_Node_Impl<.*?>, chaiscript::eval::(\w+)<", callee["q"] if callee else "")
-                if not m or m.group(1) == "Compiled_AST_Node":
-                    continue
-                ident = "%s builds %s" % (strip_targs(f["q"]).replace("chaiscript::optimizer::", ""), m.group(1))
-                locarg = [a for a in n.get("args", []) if "Parse_Location" in prog.T(f, strip_casts(a).get("t") if isinstance(strip_casts(a).get("t"), int) else -1)] if False else []
-                txts = [expr_str(prog, f, a) for a in n.get("args", [])]
-                has = [t for t in txts if t.endswith("location") or t.endswith("->location") or ".location" in t]
-                key = (ident, tuple(has))
-                if key in seen4:
-                    continue
-                seen4.add(key)
-                nsyn += 1
-                ok = len(has) == 1
-                r4.ob("%s with the replaced node's location (%s)" % (ident, has[0] if has else "none"), ok, "%s:%d" % (f["file"], n["l"]), f["q"],
-                      "synthesised node constructed with location arguments %s" % txts[:4])
-    cn = [f for f in prog.fns if strip_targs(f.get("cls") or "") == "chaiscript::eval::Compiled_AST_Node" and f["kind"] == "ctor" and f["tk"] == "inst"]
-    r4.anchor(cn, "Compiled_AST_Node constructor")
-    okc = any("location" in expr_str(prog, cn[0], i.get("init") or {}) and "t_original_node" in expr_str(prog, cn[0], i.get("init") or {}) for i in cn[0].get("inits", []))
-    r4.ob("Compiled_AST_Node takes the location of the original node", okc, cn[0].where, cn[0]["q"], "base initialiser does not use t_original_node->location")
-    r4.require(6, "synthesised node kinds")
+            if n.get("k") != "call" or n.get("name") not in ("make_unique", "make_node"):
+                continue
+            d = prog.decl(f, n.get("fn")) if n.get("fn") is not None else None
+            targs = (d.get("targs") or []) if d else []
+            cls = next((t for t in targs[:2] if "_AST_Node<" in t and "AST_Node_Impl<" not in t), None)
+            if cls is None:
+                continue
+            short = strip_targs(cls).split("::")[-1]
+            ident = "%s: %s built at line %d" % (strip_targs(f["q"]), short, n["l"])
+            if ident in seen6:
+                continue
+            seen6.add(ident)
+            chk.touched([f])
+            args = n.get("args") or []
+
+            locs6 = ref_inits(f)
+
+            def node_of(e, field, depth=0, loose=False):
+                """base expression text of `<node>.field` / `<node>->field`: e is that member itself (through casts, std::move, copies and local
+                variables initialised with it); loose: found anywhere inside e"""
+                e = strip_casts(e or {})
+                while e.get("k") in ("call", "construct") and (e.get("name") in ("move", "forward") or e.get("copy")) and e.get("args") and len(e["args"]) == 1:
+                    e = strip_casts(e["args"][0])
+                if e.get("k") == "member" and e.get("name") == field:
+                    return expr_str(prog, f, e["base"]) if e.get("base") is not None else "?"
+                if e.get("k") == "ref" and e.get("rk") == "local" and depth < 4:
+                    v = locs6.get(e.get("vid"))
+                    if v is not None and v.get("init") is not None:
+                        return node_of(v["init"], field, depth + 1)
+                if loose:
+                    for x in walk(e):
+                        if x.get("k") == "member" and x.get("name") == field:
+                            return expr_str(prog, f, x["base"]) if x.get("base") is not None else "?"
+                return None
+            if short == "Compiled_AST_Node":
+                ctors = [c for c in prog.fns if c["kind"] == "ctor" and strip_targs(c.get("cls") or "").endswith("eval::Compiled_AST_Node") and not c.get("implicit") and len(c["params"]) >= 3]
+                r6.anchor(bool(ctors), "Compiled_AST_Node constructor")
+                c = ctors[0]
+                base_inits = [i for i in c.get("inits", []) if i.get("base") or "AST_Node_Impl" in str(i.get("name", ""))] or c.get("inits", [])[:1]
+                locs = [node_of(i.get("init") or {}, "location", loose=True) for i in base_inits]
+                txts = [node_of(i.get("init") or {}, "text", loose=True) for i in base_inits]
+                p0 = c["params"][0]["name"]
+                ok = any(l is not None and p0 in l for l in locs) and any(t is not None and p0 in t for t in txts)
+                r6.ob(ident, ok, "%s:%d" % (f["file"], n["l"]), f["q"], "the Compiled node's constructor takes text %s and location %s, expected both from its first parameter (the node being replaced)" % (txts, locs))
+                continue
+            if len(args) < 2:
+                r6.ob(ident, False, "%s:%d" % (f["file"], n["l"]), f["q"], "unrecognised construction (fewer than two arguments)")
+                continue
+            lb = node_of(args[1], "location")
+            tb = node_of(args[0], "text")
+            cb = node_of(args[2], "children") if len(args) > 2 else None
+            if lb is None:
+                ok, why = False, "the location argument `%s` is not some node's location" % expr_str(prog, f, args[1])[:60]
+            else:
+                others = [b for b in (tb, cb) if b is not None]
+                if others:
+                    ok = all(b == lb for b in others)
+                    why = "location of `%s`, text of `%s`, children of `%s`" % (lb, tb, cb)
+                else:
+                    ok = re.sub(r"[()\s>-]", "", lb) == "node"
+                    why = "a node built from new parts takes the location of `%s`, expected the pass's own `node`" % lb
+            r6.ob(ident, ok, "%s:%d" % (f["file"], n["l"]), f["q"], why + ": an error raised inside the rebuilt construct is reported at another construct's position")
+    r6.require(10, "node constructions in the optimizer")
 
     # ------------------------------------------------------------------ R20.5
     r5 = chk.rule("R20.5", "Position::operator++ starts a new line at column 1 after '\\n' and advances the column otherwise; operator-- is its inverse",
@@ -306,61 +347,3 @@ def run(chk):
     r5.note("%d cursor retreats (-- / -=) in the parser; each undoes the advance made just before it, so the single remembered column belongs to the line break re-crossed (bounds of these retreats: C01 R1.3)" % nret)
     r5.require(3, "obligations")
 
-    # ------------------------------------------------------------------ R20.6 optimizer-built nodes keep the replaced node's location
-    r6 = chk.rule("R20.6", "every node the optimizer builds carries the location of the node it replaces: the location argument comes from the same node as the text and the children moved into the new node (or from the pass's own node when the new node is a folded constant)",
-                  "failing call and enclosing call sites are reported at the source position of the construct, also for code rewritten by the optimizer (calls in loop bodies, folded expressions, compiled loops)")
-    seen6 = set()
-    for f in prog.fns:
-        if f["tk"] == "pattern" or not f["q"].startswith("chaiscript::optimizer::"):
-            continue
-        for n in walk(f["body"]):
-            if n.get("k") != "call" or n.get("name") not in ("make_unique", "make_node"):
-                continue
-            d = prog.decl(f, n.get("fn")) if n.get("fn") is not None else None
-            targs = (d.get("targs") or []) if d else []
-            cls = next((t for t in targs[:2] if "_AST_Node<" in t and "AST_Node_Impl<" not in t), None)
-            if cls is None:
-                continue
-            short = strip_targs(cls).split("::")[-1]
-            ident = "%s: %s built at line %d" % (strip_targs(f["q"]), short, n["l"])
-            if ident in seen6:
-                continue
-            seen6.add(ident)
-            chk.touched([f])
-            args = n.get("args") or []
-
-            def node_of(e, field):
-                """base expression text of `<node>.field` / `<node>->field` found in e (through std::move)"""
-                for x in walk(e):
-                    if x.get("k") == "member" and x.get("name") == field:
-                        return expr_str(prog, f, x["base"]) if x.get("base") is not None else "?"
-                return None
-            if short == "Compiled_AST_Node":
-                ctors = [c for c in prog.fns if c["kind"] == "ctor" and strip_targs(c.get("cls") or "").endswith("eval::Compiled_AST_Node") and not c.get("implicit") and len(c["params"]) >= 3]
-                r6.anchor(bool(ctors), "Compiled_AST_Node constructor")
-                c = ctors[0]
-                base_inits = [i for i in c.get("inits", []) if i.get("base") or "AST_Node_Impl" in str(i.get("name", ""))] or c.get("inits", [])[:1]
-                locs = [node_of(i.get("init") or {}, "location") for i in base_inits]
-                txts = [node_of(i.get("init") or {}, "text") for i in base_inits]
-                p0 = c["params"][0]["name"]
-                ok = any(l is not None and p0 in l for l in locs) and any(t is not None and p0 in t for t in txts)
-                r6.ob(ident, ok, "%s:%d" % (f["file"], n["l"]), f["q"], "the Compiled node's constructor takes text %s and location %s, expected both from its first parameter (the node being replaced)" % (txts, locs))
-                continue
-            if len(args) < 2:
-                r6.ob(ident, False, "%s:%d" % (f["file"], n["l"]), f["q"], "unrecognised construction (fewer than two arguments)")
-                continue
-            lb = node_of(args[1], "location")
-            tb = node_of(args[0], "text")
-            cb = node_of(args[2], "children") if len(args) > 2 else None
-            if lb is None:
-                ok, why = False, "the location argument `%s` is not some node's location" % expr_str(prog, f, args[1])[:60]
-            else:
-                others = [b for b in (tb, cb) if b is not None]
-                if others:
-                    ok = all(b == lb for b in others)
-                    why = "location of `%s`, text of `%s`, children of `%s`" % (lb, tb, cb)
-                else:
-                    ok = re.sub(r"[()\s>-]", "", lb) == "node"
-                    why = "a node built from new parts takes the location of `%s`, expected the pass's own `node`" % lb
-            r6.ob(ident, ok, "%s:%d" % (f["file"], n["l"]), f["q"], why + ": an error raised inside the rebuilt construct is reported at another construct's position")
-    r6.require(10, "node constructions in the optimizer")
